@@ -4,7 +4,7 @@ import math
 import numpy as np
 
 from checks import lsops
-from checks.common import call_warn, is_num
+from checks.common import call_warn, is_num, medium_diagram
 from mc.enumerate import bars, multisets_upto
 from oracles import landscape as OL
 from oracles import plfun as P
@@ -46,6 +46,12 @@ def cases(tier):
     dg = [[list(map(float, b)) for b in m] for m in multisets_upto(bars(4), n, min_size=1)]
     for i in range(len(dg)):
         yield {"kind": "stability-row", "i": i, "n": n}
+    # long landscapes: differences of medium / large diagrams (dozens of critical points per depth,
+    # generic floats give nearly flat and nearly cancelling segments)
+    for nb in ((6, 10, 30) if tier == "quick" else (6, 10, 16, 30, 60)):
+        for k in range(3):
+            for lat in (True, False):
+                yield {"kind": "long", "n": nb, "k": k, "lattice": lat}
 
 
 def crosses(fs):
@@ -135,6 +141,20 @@ def run_case(case, ctx):
             check_norms(ctx, D, lsops.approx_ref(D), "grid", {"grid": grid, "A": sa, "B": sb, "op": "A-B"})
             E = ctx.call(lambda: 2 * A - B)
             check_norms(ctx, E, lsops.approx_ref(E), "grid", {"grid": grid, "A": sa, "B": sb, "op": "2A-B"})
+    elif kind == "long":
+        from persim import PersLandscapeApprox, PersLandscapeExact
+
+        D1 = medium_diagram(case["n"], case["k"], case["lattice"])
+        D2 = medium_diagram(case["n"], case["k"] + 1, case["lattice"])
+        A = PersLandscapeExact(dgms=[np.array(D1)], hom_deg=0)
+        B = PersLandscapeExact(dgms=[np.array(D2)], hom_deg=0)
+        desc = {"A": "medium_diagram(%d,%d,%r)" % (case["n"], case["k"], case["lattice"]), "B": "medium_diagram(%d,%d,%r)" % (case["n"], case["k"] + 1, case["lattice"])}
+        for what, pl in (("A", A), ("A-B", ctx.call(lambda: A - B)), ("2A-3B", ctx.call(lambda: 2 * A - 3 * B))):
+            check_norms(ctx, pl, lsops.exact_ref(pl), "exact", dict(desc, op=what), ps=PS[:-1])
+        GA = PersLandscapeApprox(dgms=[np.array(D1)], hom_deg=0, start=0.0, stop=21.0, num_steps=64)
+        GB = PersLandscapeApprox(dgms=[np.array(D2)], hom_deg=0, start=0.0, stop=21.0, num_steps=64)
+        Gd = ctx.call(lambda: GA - GB)
+        check_norms(ctx, Gd, lsops.approx_ref(Gd), "grid", dict(desc, op="grid A-B"), ps=PS[:-1])
     else:
         stability_row(case, ctx)
 
